@@ -14,6 +14,7 @@ from vf.spec import opcodes as T
 from vf.spec import responses as R
 
 ID = "C13"
+OPT_QUICK_ALL = True      # every partition also in a child interpreter started with -O
 LEVEL = "exploration"
 TECHNIQUE = "exhaustive enumeration of facade method x command set x every subset of optional keyword arguments x device-provided buffer contents over a recording device; call count, CDB (independent spec decoder), buffer identity and decode-after-execute ordering are checked on every call"
 RULE = ("38 facade methods x every command set whose table offers the command x every subset of the optional keyword arguments (from "
